@@ -164,6 +164,23 @@ def tlc_replay_each(spec_files, module, cfg, traces, work, timeout=600, procs=No
         return list(ex.map(one, traces))
 
 
+def apalache(spec_file, args, work, timeout=600):
+    """Run apalache-mc check on a scratch copy.  Returns dict(ok, out); None when the tool is not installed."""
+    exe = shutil.which("apalache-mc")
+    if not exe:
+        return None
+    d = tempfile.mkdtemp(prefix="apalache-", dir=work)
+    shutil.copy(spec_file, d)
+    cmd = [exe, "check", "--out-dir=" + os.path.join(d, "out")] + list(args) + [os.path.basename(spec_file)]
+    try:
+        p = subprocess.run(cmd, cwd=d, stdout=subprocess.PIPE, stderr=subprocess.STDOUT, text=True, errors="replace", timeout=timeout)
+    except subprocess.TimeoutExpired:
+        raise HarnessError("apalache timeout after %ss: %s" % (timeout, " ".join(args)))
+    ok = "EXITCODE: OK" in p.stdout
+    shutil.rmtree(d, ignore_errors=True)
+    return {"ok": ok, "out": p.stdout[-3000:]}
+
+
 def tlc_ok(r, what):
     """A design-level TLC run must finish without error; otherwise it is a harness/spec failure."""
     if r["invariant_violated"] or r["property_violated"] or r["errors"] or not r["finished"] or r["distinct"] == 0:
